@@ -17,8 +17,9 @@ RULE = ("enumerated workloads (mutation form x collection kind x plain/typed/ali
         "value matches the expected one (a 'fast because it failed' run does not count); distinct by loop source")
 ASSUMPTIONS = [
     "asymptotics are inferred from two sizes (n, 4n) with threshold 7 between the linear (4) and quadratic (16) signatures",
-    "strings / $= / x = x{..} / every .. f= are outside the property's list and are not asserted",
-    "operators that are user closures receive the value as an argument (a second reference) and are not asserted",
+    "$= (string concatenation) / x = x{..} / every .. f= are outside the property's list and are measured, not asserted; "
+    "one-character string slot assignment is asserted (observed in place: the bytes are taken out of the variable and put back)",
+    "operator-assignment through a user closure that mutates its own parameter is asserted (the argument is moved, observed in place)",
 ]
 
 # each statement: (name, setup statements (N substituted), loop body, probe expr, expected value as python lambda n -> int)
@@ -57,6 +58,16 @@ STMTS = {
     "swap_elems": (["sw := 0 .* N"], "swap sw[i], sw[N-1-i]", "len(sw)", lambda n: n),
     "insert_pair": (["ip := {}"], "ip |..= [i, i]", "len(ip)", lambda n: n),
     "discard": (["dc := set(0 til N)"], "dc -.= i", "len(dc)", lambda n: 0),
+    # strings are collections too (Seq::String): one-character slot assignment on an unaliased string of 8n bytes
+    "string_set": (["s8 := 'a' $* (8*N)"], "s8[i] = 'b'", "len(s8 filter (== 'b'))", lambda n: n),
+    "string_nested_set": (["sn8 := ['a' $* (8*N)]"], "sn8[0][i] = 'b'", "len(sn8[0] filter (== 'b'))", lambda n: n),
+    "string_opassign": (["so8 := 'a' $* (8*N)"], "so8[i] .= upper", "len(so8 filter (== 'A'))", lambda n: n),
+    # operator-assignment whose operator is a user closure mutating its own parameter: the left-hand side is dropped before
+    # the call and the argument is moved into the parameter, so the closure holds the only reference
+    "user_fn_set": (["ux := 0 .* N"], "ux .= \\a -> (a[i] = 1; a)", "ux[N-1]", lambda n: 1),
+    "user_op_append": (["upush := \\a, v -> (a append= v; a)", "ue := []"], "ue upush= i", "len(ue)", lambda n: n),
+    "user_op_nested_append": (["upush2 := \\a, v -> (a append= v; a)", "ur := [[], 0]"], "ur[0] upush2= i", "len(ur[0])", lambda n: n),
+    "user_op_set": (["usetat := \\a, v -> (a[v] = v; a)", "uy := 0 .* N"], "uy usetat= i", "uy[N-1]", lambda n: n - 1),
 }
 # y := x style extra holder before the loop: name -> alias statement
 ALIASABLE = {"list_set": "x", "list_opassign": "xo", "list_append": "e", "rows_set": "rows", "dict_set": "ds", "vector_set": "v", "bytes_set": "b",
